@@ -31,7 +31,7 @@ def gen_case(g):
     da, db = r.choice(dts), r.choice(dts)
     n = r.choice([1, 2, 3, 3])
     shape = r.choice([[], [1], [4], [2, 2]])
-    kind = r.choice(["bin_vec", "bin_arr", "bin_val", "mismatch", "unary", "pow", "normsq", "dot", "cross", "get", "comp"])
+    kind = r.choice(["bin_vec", "bin_arr", "bin_val", "rbin", "mismatch", "unary", "pow", "normsq", "dot", "cross", "get", "comp"])
     prog = []
     v = mkvec(g, prog, 10, n, shape, da, ua, name=r.choice(["", "vel"]))
 
@@ -71,6 +71,25 @@ def gen_case(g):
         prog.append({"op": "bin", "dst": 30, "name": op, "a": v,
                      "rhs": {"k": "val", "py": pyk, "v": g.arr(sh, dk, uu, small=True, values=vals)}})
         prog += [{"op": "obs", "v": 30}]
+    elif kind == "rbin":
+        # reflected operators: number op Vector, Array op Vector (Array.__op__ defers to Vector.__rop__)
+        op = r.choice(["mul", "div", "div", "add", "sub"])
+        pyk = r.choice(["num", "arr"])
+        sh = [] if pyk == "num" else r.choice([shape, []])
+        dk = r.choice(["i8", "f8"]) if pyk == "num" else db
+        uu = ub if pyk == "arr" else ""
+        if op == "div" and exact:
+            # the divisor is the Vector: powers of two (floats) / small integers keep the quotients exact
+            prog.clear()
+            v = mkvec(g, prog, 10, n, shape, da, ua, name="", values=divisor_vals(shape, da, n))
+        lhs = g.arr(sh, dk, uu, small=True, nonzero=True, values=divisor_vals(sh, dk, 1)[0] if (op == "div" and exact) else None)
+        prog.append({"op": "rbin", "dst": 30, "name": op, "a": v, "py": pyk, "lhs": lhs})
+        prog += [{"op": "obs", "v": 30}]
+        if pyk == "num" and op in ("mul", "div"):
+            for c in range(n):   # the lifting: same reflected operation on each component Array
+                prog.append({"op": "rbin", "dst": 40 + c, "name": op, "a": 10 + c, "py": pyk, "lhs": lhs})
+                prog.append({"op": "obs", "v": 40 + c})
+        prog += [{"op": "obs", "v": v}]
     elif kind == "mismatch":
         m = r.choice([k for k in (1, 2, 3) if k != n])
         w = mkvec(g, prog, 20, m, shape, db, ub)
